@@ -115,8 +115,8 @@ the merged summaries of the two parts; for each part those of its summaries -/
 theorem runBatchT_concat_merge_summaries {O : Oracles} {qy : Query} {q : AggStmt} (hq : qy.stmt = .aggregate q) (hwf : StmtWF q)
     (hj : qy.join = none) (hOI : ∀ kind ∈ slotKinds q, orderInsensitive kind = true) (joined : List FileLine)
     (joined' : Option (List FileLine)) {f f₁ f₂ : List (List FileLine)} (hf : f.flatten = f₁.flatten ++ f₂.flatten)
-    {ro ro₁ ro₂ : RunOut}
-    (h : Spec.Agg.batch O qy q joined f = some (ro, "")) (h₁ : Spec.Agg.batch O qy q joined f₁ = some (ro₁, ""))
+    {ro ro₁ ro₂ : RunOut} {cls : String}
+    (h : Spec.Agg.batch O qy q joined f = some (ro, cls)) (h₁ : Spec.Agg.batch O qy q joined f₁ = some (ro₁, ""))
     (h₂ : Spec.Agg.batch O qy q joined f₂ = some (ro₂, ""))
     (hsafe : ∀ k₁ k₂, keyedRows O q (envsOf qy.table f₁.flatten) = some k₁ → keyedRows O q (envsOf qy.table f₂.flatten) = some k₂ →
       ∀ k, SplitSafe O q (rowsOfKey k k₁) (rowsOfKey k k₂)) :
@@ -127,6 +127,8 @@ theorem runBatchT_concat_merge_summaries {O : Oracles} {qy : Query} {q : AggStmt
       runBatchT O qy joined' f₁ = tableTrace q t₁ f₁.flatten.length ∧
       runBatchT O qy joined' f₂ = tableTrace q t₂ f₂.flatten.length ∧
       runBatchT O qy joined' f = tableTrace q t (f₁.flatten.length + f₂.flatten.length) := by
+  have hcls := specBatch_concat_class hwf hj hOI joined hf h h₁ h₂
+  subst hcls
   obtain ⟨S₁, S₂, t₁, t₂, t, hS₁, hS₂, _, hT₁, hT₂, hT, ht₁, ht₂, ht, e₁, e₂, e⟩ :=
     specBatch_concat_merge_summaries hwf hj hOI joined hf h h₁ h₂ hsafe
   obtain ⟨u₁, hu₁, r₁⟩ := runBatchT_agg_spec hq hwf hj joined joined' f₁ h₁
